@@ -40,6 +40,7 @@ impl ScriptStack for Vec<Vec<u8>> {
 pub mod stack_trait { pub use super::to_bigint; }
 //@enum Status @ src/interpreter/mod.rs clone
 //@struct State @ src/interpreter/state.rs clone
+//@include spec/bsv_step.rs
 //@enum ScriptBit @ src/script/script_bit.rs clonespec
 // TxScript carries the spending transaction: opaque here (CHECKSIG wiring is unit interp_sig / property C15)
 pub struct TxScript { pub input_index: usize }
@@ -64,5 +65,6 @@ impl Interpreter {
 //@fn Interpreter::next_impl
 //@fn Interpreter::run_impl
 }
+//@fncases Interpreter::match_opcode in impl Interpreter
 } // verus!
 fn main() {}
